@@ -20,6 +20,6 @@ func c19(c *Ctx) {
 	}
 	n := resetR1(c, um, 0, nil)
 	minLenRule(c, []minLenRow{{fn: "rtp.(*VLA).Unmarshal", want: []int{2}, minOnly: true, why: "header octet + #tl octet"}})
-	r.Floor("decoded fields checked by RESET.R1", n, 4)
+	r.Floor("decoded fields checked by RESET.R1", n, 3)
 	boundsFor(c, "C19", []*ssa.Function{um, ma})
 }
